@@ -84,15 +84,15 @@ pub const N_LAYOUTS: usize = 4;
 pub fn pcs_shape(p: &Params, mix: &[usize], s: usize, layout: usize) -> PcsShape {
     let w = |j: usize| WIDTHS[(s + j) % 3];
     let mats = |two: &dyn Fn(usize) -> bool| -> Vec<MatSpec> {
-        mix.iter().enumerate().map(|(j, &h)| MatSpec { log_h: h, width: w(j), two_points: two(j) }).collect()
+        mix.iter().enumerate().map(|(j, &h)| MatSpec::new(h, w(j), two(j))).collect()
     };
     let rounds = match layout % N_LAYOUTS {
         0 => vec![mats(&|_| false)],
         1 => vec![mats(&|_| true)],
         2 => {
-            let mut second = vec![MatSpec { log_h: mix[0], width: w(3), two_points: false }];
+            let mut second = vec![MatSpec::new(mix[0], w(3), false)];
             if mix.len() > 1 {
-                second.push(MatSpec { log_h: *mix.last().unwrap(), width: w(4), two_points: false });
+                second.push(MatSpec::new(*mix.last().unwrap(), w(4), false));
             }
             vec![mats(&|_| true), second]
         }
@@ -112,7 +112,21 @@ pub fn pcs_extra_shapes() -> Vec<PcsShape> {
         let mats = mix
             .iter()
             .enumerate()
-            .map(|(j, &h)| MatSpec { log_h: h, width: WIDTHS[(k + j) % 3], two_points: h != 0 && k % 2 == 0 })
+            .map(|(j, &h)| MatSpec::new(h, WIDTHS[(k + j) % 3], h != 0 && k % 2 == 0))
+            .collect();
+        v.push(PcsShape { params: p, rounds: vec![mats] });
+    }
+    // constant matrices at an intermediate height (their reduced opening is identically zero), for
+    // the foreign-schedule deviations that jump over that height: every parameter set with
+    // max_log_arity >= 2, two mixes rotating
+    for (k, p) in all_params().into_iter().filter(|p| p.max_log_arity >= 2).enumerate() {
+        let lo = if p.log_final_poly_len == 2 { 3 } else { 2 };
+        let mix: Vec<(usize, bool)> =
+            if k % 2 == 0 { vec![(5, false), (4, true)] } else { vec![(5, false), (lo + 1, true), (lo, false)] };
+        let mats = mix
+            .iter()
+            .enumerate()
+            .map(|(j, &(h, c))| MatSpec { log_h: h, width: WIDTHS[(k + j) % 3], two_points: k % 4 < 2, constant: c })
             .collect();
         v.push(PcsShape { params: p, rounds: vec![mats] });
     }
